@@ -245,7 +245,11 @@ func visitInstr(fr *frame, instr ssa.Instruction) continuation {
 		fr.get(instr.Chan).(chan value) <- fr.get(instr.X)
 
 	case *ssa.Store:
-		store(mustDeref(instr.Addr.Type()), fr.get(instr.Addr).(*value), fr.get(instr.Val))
+		addr := fr.get(instr.Addr)
+		if sp, ok := addr.(*symElemPtr); ok {
+			addr = sp.concretize()
+		}
+		store(mustDeref(instr.Addr.Type()), addr.(*value), fr.get(instr.Val))
 
 	case *ssa.If:
 		succ := 1
@@ -343,6 +347,10 @@ func visitInstr(fr *frame, instr ssa.Instruction) continuation {
 	case *ssa.IndexAddr:
 		x := fr.get(instr.X)
 		idx := fr.get(instr.Index)
+		if sp := trySymElemPtr(x, idx, instr.Index.Type()); sp != nil {
+			fr.env[instr] = sp
+			break
+		}
 		idx = concIndex(x, idx, instr.Index.Type())
 		switch x := x.(type) {
 		case []value:
@@ -356,6 +364,10 @@ func visitInstr(fr *frame, instr ssa.Instruction) continuation {
 	case *ssa.Index:
 		x := fr.get(instr.X)
 		idx := fr.get(instr.Index)
+		if sp := trySymElemPtr(x, idx, instr.Index.Type()); sp != nil {
+			fr.env[instr] = sp.load()
+			break
+		}
 		idx = concIndex(x, idx, instr.Index.Type())
 
 		switch x := x.(type) {
